@@ -634,7 +634,14 @@ def fsync_flag_released(crate):
     res.bounds = "one call, flag taken or free, active blob present/absent, arbitrary dirty bytes and limit, sync may fail"
     ex = P.mk_executor(crate, cap=2, loop_bound=4,
                        inline=[x for x in INLINE_STORAGE if "fsyncdata" not in x] + [r"^Inner::(fsyncdata|too_many_dirty_bytes)$", r"^Safe::fsyncdata$",
-                                                                                  r"^<ResetableFlag as Drop>::drop$", r"^Blob::file_dirty_bytes$", r"^Config::max_dirty_bytes_before_sync$"])
+                                                                                  r"^<ResetableFlag as Drop>::drop$", r"^Blob::file_dirty_bytes$", r"^File::dirty_bytes$"])
+    limit = z3.BitVec("max_dirty_bytes_before_sync", 64)
+
+    def limit_hook(ex_, st_, cname, args, dty):
+        if cname == "Config::max_dirty_bytes_before_sync":
+            return [(Sym(limit, "u64"), None)]
+        return None
+    ex.call_hook = limit_hook
     st = State()
     iref, safe, ab, act, blob = _inner_state(crate, ex, st)
     inner = st.mem[iref.cell]
@@ -653,7 +660,14 @@ def fsync_flag_released(crate):
         if not P.prove(ex, res, o, z3.Implies(f0, z3.And(f1, isok)), "flag held by someone else: Ok, flag untouched"):
             return False
         syncs = [e for e in P.events_of(o) if "fsyncdata" in e[1] and e[0] == "await"]
+        dirty = z3.BitVec("activefile_size", 64) - z3.BitVec("activefile_synced", 64)
+        over = z3.And(z3.Not(f0), act == BV64(1), z3.UGT(dirty, limit))
+        if not P.prove(ex, res, o, z3.Implies(over, z3.BoolVal(bool(syncs))), "flag free and dirty bytes above the limit => the active blob is synced"):
+            return False
         if syncs:
+            if not P.prove(ex, res, o, z3.Implies(z3.Not(f0), isok == _ev_result_ok(ex, o, syncs[0])), "the sync's result is returned"):
+                return False
+            P.cover(ex, res, o, over, "above the limit: synced")
             P.cover(ex, res, o, z3.And(z3.Not(f0), _ev_result_ok(ex, o, syncs[0])), "synced, flag released")
             P.cover(ex, res, o, z3.And(z3.Not(f0), z3.Not(_ev_result_ok(ex, o, syncs[0]))), "sync failed, flag released")
         else:
@@ -662,7 +676,7 @@ def fsync_flag_released(crate):
         return True
 
     _check_paths(ex, res, outs, per_path)
-    return P.finish(ex, res, ["synced, flag released", "sync failed, flag released", "nothing to sync (below the limit), flag released", "another sync in flight"])
+    return P.finish(ex, res, ["above the limit: synced", "synced, flag released", "sync failed, flag released", "nothing to sync (below the limit), flag released", "another sync in flight"])
 
 
 def read_blobs_max_id(crate, N=2):
